@@ -58,13 +58,13 @@ def generate(tier, seed):
     return items
 
 
-def original_symbol(d, input_names, aliases):
+def original_symbol(d, names_in_task, declared):
     """Which symbolic constant of the task a declared TFF constant stands for, read off the *input*: a declared constant
-    that is not written anywhere in the task can only be a renamed one (<name>__s stands for <name>); when both
-    <name> and <name>__s are written in the task, the documented renaming rule (clash with a 0-ary predicate) decides."""
-    if d.endswith('__s') and d[:-3] in input_names and d not in input_names:
+    that is not written anywhere in the task can only be a renamed one (<name>__s stands for <name>), unless <name> is
+    declared as a constant too (then they are two constants)."""
+    if d.endswith('__s') and d[:-3] in names_in_task and d not in names_in_task and d[:-3] not in declared:
         return d[:-3]
-    return aliases.get(d, d)
+    return d
 
 
 def valid(build, timeout=8000):
@@ -130,7 +130,7 @@ def check_item(item):
         preds = []
     problems = parse_problems(payload)
     texts = (item['left'], item['right']) if item['kind'] == 'strong' else item['task'][2:5]
-    input_names = set(re.findall(r'[a-z_][A-Za-z0-9_]*', ' '.join(texts)))
+    names_in_task = input_names(*texts)
     seen_texts = set()
     for p in problems:
         base = {'family': item['family'], 'input_key': item['label'], 'twin': item.get('twin', False), 'nontrivial': True}
@@ -142,7 +142,7 @@ def check_item(item):
                      verdict='observation', detail='problem text not readable (C09): %s' % e)
             out.append(r)
             continue
-        aliases = symbol_aliases([p])
+        aliases = symbol_aliases([p], texts)
         decl_symbols = [it['body'][1] for it in items if it['role'] == 'type' and it['body'][2] == 'symbol'
                         and it['name'].startswith('type_symbol_')]
         order_ax = [it for it in items if it['role'] == 'axiom' and it['name'].startswith('symbol_order_')]
@@ -150,7 +150,7 @@ def check_item(item):
         # ---- (b) symbol order chain
         if key_part not in seen_texts:
             seen_texts.add(key_part)
-            meaning = {s: ('sym', original_symbol(s, input_names, aliases)) for s in decl_symbols}
+            meaning = {s: ('sym', original_symbol(s, names_in_task, decl_symbols)) for s in decl_symbols}
             links = []
             for it in order_ax:
                 r = dict(base)
@@ -173,8 +173,8 @@ def check_item(item):
                 r.update(verdict=res['verdict'], ms=res['ms'])
                 if res['verdict'] == 'sat':
                     r.update(signature='symbol-order-axiom-false',
-                             detail='%s is false in the standard order of the original symbol names (aliases %s)' % (
-                                 render_ast(it['body']), aliases),
+                             detail='%s is false in the standard order of the original symbol names (read as %s)' % (
+                                 render_ast(it['body']), meaning),
                              replay={'request': render(req), 'expected': render(resp), 'smt2': res['smt2']})
                 out.append(r)
                 b_ = it['body']
